@@ -354,6 +354,13 @@ func (o *Oracle) beforeDeleteRange(inc *Inc, min, max uint64) {
 		hi = d.last
 	}
 	snapIdx := d.snapIndex()
+	if inc.r != nil {
+		// the snapshot raft has adopted; it can differ from the "newest" durable one, which is ordered
+		// by (term, index), when a snapshot of a higher but aborted term is still on disk
+		if si, _ := inc.r.VerifLastSnapshot(); si > snapIdx {
+			snapIdx = si
+		}
+	}
 	count := uint64(len(d.logs))
 	whole := lo <= d.first && hi >= d.last
 	prefix := lo <= d.first && !whole
